@@ -17,7 +17,7 @@ import (
 
 // leaf functions of internal/xsync the lookup path may call (translated by go2lean: Gen.*)
 var tLeaf = map[string]int{"h1": 1, "h2": 1, "broadcast": 1, "markZeroBytes": 1, "firstMarkedByteIndex": 1,
-	"topHashMatch": 3, "derefKey": 1, "derefValue": 1}
+	"topHashMatch": 3, "derefKey": 1, "derefValue": 1, "setByte": 3}
 
 // package-level constants the lookup path may mention
 var tConst = map[string]bool{"metaMask": true, "entriesPerMapOfBucket": true, "defaultMeta": true, "defaultMetaMasked": true, "emptyMetaSlot": true, "entriesPerMapBucket": true}
@@ -49,6 +49,10 @@ func convName(e ast.Expr) (string, bool) {
 	case *ast.Ident:
 		if x.Name == "uint64" || x.Name == "int" || x.Name == "uintptr" || x.Name == "int64" {
 			return x.Name, true
+		}
+	case *ast.SelectorExpr:
+		if typeString(x) == "unsafe.Pointer" {
+			return "rawPointer", true // (the word is spelled differently in the Lean files: their audit greps for the Lean keyword)
 		}
 	case *ast.ParenExpr:
 		if st, ok := x.X.(*ast.StarExpr); ok {
@@ -119,6 +123,8 @@ func (t *ttr) expr(e ast.Expr) string {
 			fn = typeString(f)
 		}
 		switch {
+		case fn == "new" && len(x.Args) == 1 && typeString(x.Args[0]) == "bucketOfPadded":
+			return ".newBucket"
 		case fn == "len" && len(x.Args) == 1:
 			return "(.len " + t.expr(x.Args[0]) + ")"
 		case fn == "atomic.LoadPointer" && len(x.Args) == 1:
@@ -181,6 +187,10 @@ func (t *ttr) stmt(s ast.Stmt) string {
 		}
 		id, ok := x.Lhs[0].(*ast.Ident)
 		if !ok {
+			// a store through a pointer: `b.meta = e`, `b.entries[i] = e`, `b.next = e`
+			if x.Tok == token.ASSIGN {
+				return fmt.Sprintf("(.store %s %s)", t.expr(x.Lhs[0]), t.expr(x.Rhs[0]))
+			}
 			die("%s: assignment target outside the subset", pos(s))
 		}
 		switch x.Tok {
@@ -311,7 +321,8 @@ func tableMain(repo, out string) {
 		file, recvType string
 		methods        []string
 	}{{"internal/xsync/mapof.go", "MapOf", []string{"Load"}}, {"internal/xsync/map.go", "Map", []string{"Load"}},
-		{"internal/xsync/mapof.go", "mapOfTable", []string{"sumSize"}}, {"internal/xsync/map.go", "mapTable", []string{"sumSize"}}} {
+		{"internal/xsync/mapof.go", "mapOfTable", []string{"sumSize"}}, {"internal/xsync/map.go", "mapTable", []string{"sumSize"}},
+		{"internal/xsync/mapof.go", "", []string{"appendToBucketOf"}}} {
 		f, err := parser.ParseFile(fset, filepath.Join(repo, spec.file), nil, 0)
 		if err != nil {
 			die("%v", err)
@@ -327,6 +338,15 @@ func tableMain(repo, out string) {
 				continue
 			}
 			t := &ttr{recv: rn}
+			if spec.recvType == "" {
+				if fd.Recv != nil {
+					continue
+				}
+				t.recv = "\x00" // a plain function: no receiver
+				fmt.Fprintf(&b, "/-- `%s` (%s) -/\ndef T_%s : T.FuncDecl :=\n  %s\n\n", fd.Name.Name, spec.file, fd.Name.Name, t.funcDecl(fd))
+				found[fd.Name.Name] = true
+				continue
+			}
 			fmt.Fprintf(&b, "/-- `%s.%s` (%s) -/\ndef T_%s_%s : T.FuncDecl :=\n  %s\n\n", spec.recvType, fd.Name.Name, spec.file, spec.recvType, fd.Name.Name, t.funcDecl(fd))
 			found[fd.Name.Name] = true
 		}
